@@ -7,61 +7,64 @@ pub async fn on_did_change_watched_files(
     context: ServerContextSnapshot,
     params: DidChangeWatchedFilesParams,
 ) -> Option<()> {
-    // Lock order: decide everything that needs the workspace manager first and release it before
-    // waiting for the analysis write lock. Request handlers hold analysis (read) while they ask for
-    // the workspace manager, so holding the workspace manager while waiting for analysis (or asking
-    // for it a second time) can deadlock behind a queued writer.
-    let mut deleted_lua_uris: Vec<Uri> = Vec::new();
-    let mut changed_lua_events: Vec<(Uri, FileChangeType)> = Vec::new();
-    {
-        let workspace = context.workspace_manager().read().await;
-        for file_event in params.changes.into_iter() {
-            let file_type = get_file_type(&file_event.uri);
-            match file_type {
-                Some(WatchedFileType::Lua) => {
-                    if file_event.typ == FileChangeType::DELETED {
-                        deleted_lua_uris.push(file_event.uri);
-                        continue;
-                    }
-
-                    if !workspace.is_open_file(&file_event.uri)
-                        && workspace.is_workspace_file(&file_event.uri)
-                    {
-                        changed_lua_events.push((file_event.uri, file_event.typ));
-                    }
-                }
-                Some(WatchedFileType::Emmyrc) => {
-                    if file_event.typ == FileChangeType::DELETED {
-                        continue;
-                    }
-                    let Some(config_path) = uri_to_file_path(&file_event.uri) else {
-                        continue;
-                    };
-                    workspace.add_update_emmyrc_task(context.clone(), config_path);
-                }
-                None => {}
-            }
-        }
-    }
-
+    // Lock order: analysis first, then workspace_manager - the same order in which request handlers
+    // (semantic tokens, completion, formatting, ...) take them. Taking workspace_manager first, or
+    // asking for it a second time, can deadlock behind a queued writer. Both are held while the
+    // events are applied so that "is this file open?" and the update/removal are one atomic step
+    // with respect to didOpen/didChange/didClose.
     let mut analysis = context.analysis().write().await;
+    let workspace = context.workspace_manager().read().await;
     let emmyrc = analysis.get_emmyrc();
     let encoding = &emmyrc.workspace.encoding;
     let interval = emmyrc.diagnostics.diagnostic_interval.unwrap_or(500);
+    let mut watched_lua_files: Vec<(Uri, Option<String>)> = Vec::new();
     let lsp_features = context.lsp_features();
-    for uri in deleted_lua_uris {
-        analysis.remove_file_by_uri(&uri);
-        if !lsp_features.supports_pull_diagnostic() {
-            context.file_diagnostic().clear_push_file_diagnostics(uri);
+    for file_event in params.changes.into_iter() {
+        let file_type = get_file_type(&file_event.uri);
+        match file_type {
+            Some(WatchedFileType::Lua) => {
+                // an open document is owned by the editor: its text stays authoritative whatever
+                // happens to the file on disk
+                if workspace.is_open_file(&file_event.uri) {
+                    continue;
+                }
+
+                if file_event.typ == FileChangeType::DELETED {
+                    analysis.remove_file_by_uri(&file_event.uri);
+                    if !lsp_features.supports_pull_diagnostic() {
+                        context
+                            .file_diagnostic()
+                            .clear_push_file_diagnostics(file_event.uri);
+                    }
+                    continue;
+                }
+
+                if !workspace.is_workspace_file(&file_event.uri) {
+                    continue;
+                }
+
+                collect_lua_files(
+                    &mut watched_lua_files,
+                    file_event.uri,
+                    file_event.typ,
+                    encoding,
+                );
+            }
+            Some(WatchedFileType::Emmyrc) => {
+                if file_event.typ == FileChangeType::DELETED {
+                    continue;
+                }
+                let Some(config_path) = uri_to_file_path(&file_event.uri) else {
+                    continue;
+                };
+                workspace.add_update_emmyrc_task(context.clone(), config_path);
+            }
+            None => {}
         }
     }
 
-    let mut watched_lua_files: Vec<(Uri, Option<String>)> = Vec::new();
-    for (uri, typ) in changed_lua_events {
-        collect_lua_files(&mut watched_lua_files, uri, typ, encoding);
-    }
-
     let file_ids = analysis.update_files_by_uri(watched_lua_files);
+    drop(workspace);
     drop(analysis);
     context
         .file_diagnostic()
